@@ -6,6 +6,7 @@ package gen
 import (
 	"net"
 	"net/netip"
+	"slices"
 	"strings"
 
 	"pgregory.net/rapid"
@@ -717,9 +718,28 @@ var addr = rapid.Custom(func(t *rapid.T) netip.Addr {
 func IPSlice() *rapid.Generator[net.IP] { return ipSlice }
 
 var ipSlice = rapid.Custom(func(t *rapid.T) net.IP {
-	switch rapid.IntRange(0, 9).Draw(t, "form") {
+	switch rapid.IntRange(0, 10).Draw(t, "form") {
 	case 0:
 		return nil
+	case 10:
+		// A well-formed 4- or 16-byte address (mapped ones included) with
+		// extra bytes behind it, or cut short: not an address, although a
+		// prefix or a window of it is one.
+		var b []byte
+		if rapid.Bool().Draw(t, "from4") {
+			a := netip.AddrFrom16(addr4.Draw(t, "a4").As16()).As16()
+			b = a[:]
+			if rapid.Bool().Draw(t, "short") {
+				b = b[12:]
+			}
+		} else {
+			a := addr6.Draw(t, "a6").As16()
+			b = a[:]
+		}
+		if rapid.IntRange(0, 3).Draw(t, "cut") == 0 {
+			return net.IP(b[:len(b)-rapid.IntRange(1, 3).Draw(t, "less")])
+		}
+		return net.IP(append(slices.Clone(b), rapid.SliceOfN(rapid.Byte(), 1, 4).Draw(t, "extra")...))
 	case 1, 2, 3:
 		a := addr4.Draw(t, "a4").As4()
 		return net.IP(a[:])
